@@ -384,7 +384,7 @@ func buildWorker(wd string, race bool) (string, error) {
 			os.WriteFile(filepath.Join(wd, "alt.sum"), gs, 0o644)
 		}
 		args = []string{"build", "-tags", "verif", "-o", bin, "-modfile", mf, "-cover",
-			"-coverpkg=github.com/mdzio/go-mqtt/message,github.com/mdzio/go-mqtt/service,github.com/mdzio/go-mqtt/sessions,github.com/mdzio/go-mqtt/topics,github.com/mdzio/go-mqtt/auth"}
+			"-coverpkg=github.com/mdzio/go-mqtt/message,github.com/mdzio/go-mqtt/service,github.com/mdzio/go-mqtt/sessions,github.com/mdzio/go-mqtt/topics,github.com/mdzio/go-mqtt/auth,verif/harness/cmd/worker"}
 	} else if altRepo() {
 		// the module replacement has to point at the other tree
 		gm, err := os.ReadFile(filepath.Join(verifDir, "go.mod"))
